@@ -118,6 +118,25 @@ def matcher(f, v):
     return f.get("match", {}).get("class") == v.get("class")
 
 
+def tolist_correspondence(r, n):
+    """tools.to_list vs its Lean model (the function the list theorems of Props/C19.lean are about); inputs begin and end with
+    an ASCII character, as every rendered list does (`s[1:-1]` drops characters, the model bytes)"""
+    from sievelib import tools
+    alphabet = ["[", "]", ",", '"', "a", "b c", " ", "é", "\\", "€", "x,y", '""', ""]
+    cases = ['[]', '[""]', '["a"]', '["a","b"]', '["a", "b"]', "", "[", "x", '["a,b"]', '["say \\""]']
+    while len(cases) < n:
+        body = "".join(r.choice(alphabet) for _ in range(r.randint(0, 6)))
+        cases.append(r.choice(["[", "(", "x"]) + body + r.choice(["]", ")", "y"]))
+    lines, want = [], []
+    for c in cases:
+        for unq in (True, False):
+            b = c.encode("utf-8")
+            lines.append("tolist %s %d" % (b.hex(), unq) if b else "tolist %d" % unq)
+            want.append(",".join((x.encode("utf-8").hex() or "e") for x in tools.to_list(c, unq)))
+    got = run_driver(lines, live_table=False)
+    return [{"suite": "to_list", "input": l, "impl": w, "model": g} for l, w, g in zip(lines, want, got) if w != g], len(lines)
+
+
 def run(ctx):
     r = rng("c19")
     n = 500 if ctx.tier == "quick" else 6000
@@ -155,8 +174,9 @@ def run(ctx):
             seen.add(k)
             uv.append(v)
     fresh, known = split_known("C19", uv, matcher)
-    return {"evaluations": evals, "distinct_nontrivial": nontriv, "rule": RULE, "samples": samples,
-            "suites": {"factory": {"definitions": n}}, "diffs": [], "violations": fresh, "known": known}
+    tl_diffs, tl_n = tolist_correspondence(r, 300 if ctx.tier == "quick" else 3000)
+    return {"evaluations": evals + tl_n, "distinct_nontrivial": nontriv, "rule": RULE, "samples": samples,
+            "suites": {"factory": {"definitions": n}, "to_list": {"evaluations": tl_n}}, "diffs": tl_diffs, "violations": fresh, "known": known}
 
 
 def replay(ctx, payload):
